@@ -851,6 +851,17 @@ def stepProv (d : ProvDrv) (a : Acc) (s : Step) : ProvDrv × Acc :=
     let b := before.toState
     let t := r.1.impl.toState
     let a := provInvariants r.2 s.lineNo s.op ok b t
+    -- C02 / C04: the allow / deny / priority INDEXES that validator-set computation reads hold exactly the
+    -- addresses of the stored power-shaping parameters (as sets; a deleted consumer keeps its parameters but loses the indexes)
+    let a := r.1.impl.cs.foldl (fun a e =>
+      let lists := (e.2.get "pslists").splitOn "|"
+      let setEq := fun (x y : List Nat) => x.all (y.contains ·) && y.all (x.contains ·)
+      let okL := e.2.get "phase" == "5" ||
+                 setEq (parseNatList (e.2.get "allow")) (parseNatList (lists.getD 0 "")) &&
+                 setEq (parseNatList (e.2.get "deny")) (parseNatList (lists.getD 1 "")) &&
+                 setEq (parseNatList (e.2.get "prio")) (parseNatList (lists.getD 2 ""))
+      let d := s!"consumer={e.1} index allow={e.2.get "allow"} deny={e.2.get "deny"} prio={e.2.get "prio"} params={e.2.get "pslists"}"
+      (a.spec s.lineNo "C02.list-index-in-sync" okL d).spec s.lineNo "C04.list-index-in-sync" okL d) a
     -- C18: replicas of this block hook on throw-away branches of the same state agreed byte for byte
     -- (return value, every key/value of the provider store, packets, calls to the environment)
     -- C19: whatever fails inside reward allocation, every (consumer, denom) step is all or nothing:
